@@ -331,6 +331,14 @@ func (t *State) verifyXuperSign(tx *pb.Transaction, digestHash []byte) (bool, ma
 			return false, nil, errors.New("XuperSign: address and public key not match")
 		}
 	}
+	if len(addrList) > 1 {
+		// every signature type but the multi-signature is verified against the
+		// FIRST public key only: it proves nothing about the other listed signers
+		xsig := struct{ SigType string }{}
+		if err := json.Unmarshal(tx.GetXuperSign().GetSignature(), &xsig); err != nil || xsig.SigType != "MultiSig" {
+			return false, nil, errors.New("XuperSign: several signers need a multi-signature")
+		}
+	}
 	ok, err := t.sctx.Crypt.VerifyXuperSignature(pubkeys, tx.GetXuperSign().GetSignature(), digestHash)
 	if err != nil || !ok {
 		t.log.Warn("XuperSign: signature verify failed", "error", err)
